@@ -23,6 +23,9 @@ func init() {
 }
 
 func (c20) ID() string { return "C20" }
+
+// MinimiseCase: canonical-style documents stop being canonical when bytes are deleted.
+func (c20) MinimiseCase(c *core.Case) bool { return c.Gen != "model" }
 func (c20) Rule() string {
 	return "clause 1 on every input: Format to bytes.Buffer and to a plain io.Writer returns nil with identical bytes twice, fingerprint and Source unchanged, injected writer error returned by identity with no call after it. clause 2 on model/fmt-canonical documents: HTML preserved and Format idempotent. Non-trivial: >= 3 block kinds or a nested container (clause 2), or a writer fault sweep was run (clause 1); distinct by input hash"
 }
@@ -90,6 +93,12 @@ func (w faultStringWriter) WriteString(s string) (int, error) { return w.write([
 
 func (c20) Check(ctx *core.Ctx, c *core.Case) {
 	rnd := core.NewRand(c.Seed)
+	if c.Gen == "model" {
+		// the model generator appends its expected HTML after a marker; only the markdown is the input here
+		if i := bytes.Index(c.Input, []byte("\x00EXPECT\x00")); i >= 0 {
+			c = &core.Case{Gen: c.Gen, Index: c.Index, Seed: c.Seed, Input: c.Input[:i], Note: c.Note}
+		}
+	}
 	blocks, refs, _ := core.ParseCopy(c.Input)
 	fp := core.Fingerprint(blocks, refs, core.FPOpts{})
 
